@@ -410,6 +410,32 @@ class World:
             p._root_oid = None
             p.sync_state = None
 
+    def down(self, graceful=True):
+        if self.cs is None:
+            return False
+        self.shutdown(graceful)
+        for p in self.provs:        # the accounts stay reachable for their users while the engine is down
+            p.connect(CREDS)
+        return True
+
+    def up(self, variant="intact"):
+        """start a new engine over the same storage dict and the same two accounts.  variants: intact | nocursor
+        (cursor rows removed) | badcursor (cursor rows hold a value the provider rejects) | nowalk (walk marker removed)"""
+        if self.cs is not None:
+            return False
+        for tag in list(self.sd):
+            if variant == "nocursor" and "_cursor_" in tag:
+                self.sd[tag] = {}
+            elif variant == "badcursor" and "_cursor_" in tag:
+                for k in self.sd[tag]:
+                    self.sd[tag][k] = "rejected-cursor"
+            elif variant == "nowalk" and "_walked_" in tag:
+                self.sd[tag] = {}
+        for p in self.provs:
+            p.disconnect()
+        self.boot()
+        return True
+
     # ---------------------------------------------------------------- one engine step
     def step(self, which):
         """One iteration of Runnable.run's loop body for manager `which`, faithfully (A.2)."""
